@@ -172,10 +172,25 @@ Lemma is_termination_gen_limit ts l gen tm ot : forall tp,
     gen_limit ts = Some l -> l <= gen -> fst (is_termination ts gen tm ot tp) = true.
 Proof.
   induction ts as [|t r IH]; intros tp Hl Hle; [discriminate|].
-  destruct t as [l'| |i]; cbn [is_termination gen_limit] in *.
+  destruct t as [l'| |i|l']; cbn [is_termination gen_limit] in *.
   - injection Hl as ->. apply Nat.leb_le in Hle. rewrite Hle. reflexivity.
   - destruct (tm tp); [reflexivity|]. apply IH; assumption.
   - destruct (ot i tp); [reflexivity|]. apply IH; assumption.
+  - injection Hl as ->. apply Nat.leb_le in Hle. rewrite Hle. reflexivity.
+Qed.
+
+(* a user-supplied criterion on statistics.generation terminates the composite wherever it stands in the list *)
+Lemma is_termination_user_limit ts l gen tm ot : forall tp,
+    In (TUser l) ts -> l <= gen -> fst (is_termination ts gen tm ot tp) = true.
+Proof.
+  induction ts as [|t r IH]; intros tp Hin Hle; [contradiction|].
+  destruct Hin as [->|Hin].
+  - cbn [is_termination]. apply Nat.leb_le in Hle. rewrite Hle. reflexivity.
+  - destruct t as [l'| |i|l']; cbn [is_termination].
+    + destruct (l' <=? gen); [reflexivity|apply IH; assumption].
+    + destruct (tm tp); [reflexivity|apply IH; assumption].
+    + destruct (ot i tp); [reflexivity|apply IH; assumption].
+    + destruct (l' <=? gen); [reflexivity|apply IH; assumption].
 Qed.
 
 (* the limit of the MaxGeneration criterion is the configured max_generations, whatever else is configured *)
@@ -185,30 +200,53 @@ Proof. reflexivity. Qed.
 Lemma gen_limit_cfg cfg N : c_max_gen cfg = Some N -> gen_limit (cfg_terms cfg) = Some N.
 Proof. intros H. unfold cfg_terms, terminations. rewrite H. destruct (c_max_time cfg); reflexivity. Qed.
 
-Lemma is_termination_exact N mt cv tg gen tm ot tp :
-  (forall t, tm t = false) -> (forall i t, ot i t = false) ->
-  fst (is_termination (terminations (Some N) mt cv tg) gen tm ot tp) = (N <=? gen).
+(* the effective limit on statistics.generation: the configured maximum, lowered by a user-supplied criterion *)
+Definition eff_limit (cfg : econfig) (N : nat) : nat :=
+  match c_user_term cfg with Some l => Nat.min N l | None => N end.
+
+Lemma eff_limit_le cfg N : eff_limit cfg N <= N.
+Proof. unfold eff_limit. destruct (c_user_term cfg); lia. Qed.
+
+Lemma eff_limit_pos cfg N : 1 <= N -> (forall l, c_user_term cfg = Some l -> 1 <= l) -> 1 <= eff_limit cfg N.
+Proof. intros HN Hu. unfold eff_limit. destruct (c_user_term cfg) as [l|]; [specialize (Hu l eq_refl); lia|exact HN]. Qed.
+
+Lemma min_leb a b g : (Nat.min a b <=? g) = (a <=? g) || (b <=? g).
 Proof.
-  intros Htm Hot. unfold terminations. destruct mt, cv, tg; cbn [app is_termination]; destruct (N <=? gen);
-    rewrite ?Htm, ?Hot; reflexivity.
+  destruct (a <=? g) eqn:Ea, (b <=? g) eqn:Eb; cbn [orb];
+    rewrite ?Nat.leb_le, ?Nat.leb_gt in *; lia.
+Qed.
+
+Lemma is_termination_exact cfg N gen tm ot tp :
+  c_max_gen cfg = Some N ->
+  (forall t, tm t = false) -> (forall i t, ot i t = false) ->
+  fst (is_termination (cfg_terms cfg) gen tm ot tp) = (eff_limit cfg N <=? gen).
+Proof.
+  intros Hc Htm Hot. unfold cfg_terms, terminations, eff_limit. rewrite Hc.
+  destruct (c_user_term cfg) as [l|]; [rewrite min_leb|];
+    destruct (c_max_time cfg), (c_min_cv cfg), (c_target cfg); cbn [app is_termination]; destruct (N <=? gen); cbn [orb fst];
+    rewrite ?Htm, ?Hot; cbn [fst]; try reflexivity; destruct (l <=? gen); reflexivity.
 Qed.
 
 Definition first_check_passes (cfg : econfig) (W : oracles) : Prop :=
   fst (is_termination (cfg_terms cfg) 0 (o_time W) (o_other W) 0) = false /\ est_exceeds (cfg_terms cfg) 0 (o_init_quota W 0) = false.
 
 Lemma first_check_positive_limit cfg W N :
-  c_max_gen cfg = Some N -> 1 <= N ->
+  c_max_gen cfg = Some N -> 1 <= eff_limit cfg N ->
   (forall t, t < 3 -> o_time W t = false /\ forall i, o_other W i t = false) -> (c_max_time cfg = true -> o_init_quota W 0 = false) ->
   first_check_passes cfg W.
 Proof.
   intros Hg HN Hquiet Hiq. unfold first_check_passes, cfg_terms, terminations. rewrite Hg.
   destruct (Hquiet 0) as [Ht0 Ho0]; [lia|]. destruct (Hquiet 1) as [Ht1 Ho1]; [lia|]. destruct (Hquiet 2) as [Ht2 Ho2]; [lia|].
+  pose proof (eff_limit_le cfg N) as HNle.
   assert (E1 : (N <=? 0) = false) by (apply Nat.leb_gt; lia).
   assert (E2 : (N =? 0) = false) by (apply Nat.eqb_neq; lia).
   assert (E3 : (N <? 20 * 0) = false) by (apply Nat.ltb_ge; lia).
-  destruct (c_max_time cfg) eqn:Emt; [rewrite (Hiq eq_refl)|];
+  unfold eff_limit in HN.
+  destruct (c_user_term cfg) as [l|];
+    [assert (E4 : (l <=? 0) = false) by (apply Nat.leb_gt; lia)|];
+    (destruct (c_max_time cfg) eqn:Emt; [rewrite (Hiq eq_refl)|]);
     destruct (c_min_cv cfg), (c_target cfg); cbn [app is_termination est_exceeds existsb];
-    rewrite E1, E2, E3, ?Ht0, ?Ht1, ?Ht2, ?Ho0, ?Ho1, ?Ho2; split; reflexivity.
+    rewrite E1, E2, E3, ?E4, ?Ht0, ?Ht1, ?Ht2, ?Ho0, ?Ho1, ?Ho2; split; reflexivity.
 Qed.
 
 (* ------------------------------------------------------------------ telemetry *)
@@ -238,6 +276,21 @@ Proof. intros [_ [[H1 H2]|H]]; unfold gens_run; [rewrite H1; left; split; [refle
 Definition oracles_ok (W : oracles) : Prop :=
   (forall idx, ev_ok (o_init_ev W idx)) /\ (forall g j, ev_ok (o_search_ev W g j)).
 
+(* a user-supplied hyper-heuristic may hand over ANY list of offspring per generation - none, fewer, more, duplicates, copies of
+   parents, solutions of its own - as long as each of them is a complete solution of the plan whenever the population and the
+   offspring of the built-in search are *)
+Definition hyper_ok (jobs : list Z) (W : oracles) : Prop :=
+  forall g pop offs, Forall (Good jobs) pop -> Forall (Good jobs) offs -> Forall (Good jobs) (o_hyper W g pop offs).
+
+(* in particular every heuristic that only selects among the parents and the offspring of the built-in search: drops some or all,
+   duplicates, reorders *)
+Lemma hyper_selection_ok jobs W :
+  (forall g pop offs s, In s (o_hyper W g pop offs) -> In s pop \/ In s offs) -> hyper_ok jobs W.
+Proof.
+  intros Hsel g pop offs Hpop Hoffs. apply Forall_forall. intros s Hs.
+  destruct (Hsel g pop offs s Hs) as [H|H]; [exact (proj1 (Forall_forall _ _) Hpop s H)|exact (proj1 (Forall_forall _ _) Hoffs s H)].
+Qed.
+
 Lemma rop_guards ops : forall s, guards s (map rop_hop ops).
 Proof. induction ops as [|o r IH]; intros s; cbn [map guards]; [exact I|split; [destruct o; exact I|apply IH]]. Qed.
 
@@ -247,6 +300,7 @@ Section Evolve.
   Variable q : quota.
   Hypothesis HW : oracles_ok W.
   Let jobs := c_jobs cfg.
+  Hypothesis HH : hyper_ok jobs W.
 
   Lemma process_good ev st : ev_ok ev -> Inv jobs (p_sol st) ->
     exists st', process ev q st = Some st' /\ Good jobs (p_sol st') /\ p_polls st <= p_polls st'.
@@ -281,7 +335,25 @@ Section Evolve.
     intros Hpop. unfold generation.
     destruct (offspring_some (gens_run (s_tele st)) (s_pop st) Hpop (o_parents W (gens_run (s_tele st)) (s_pop st)) 0 (s_polls st))
       as (offs & polls & E & Hoffs & Hp).
-    rewrite E. exists offs, polls. split; [reflexivity|]. split; assumption.
+    rewrite E. exists (o_hyper W (gens_run (s_tele st)) (s_pop st) offs), polls. split; [reflexivity|].
+    split; [apply HH; assumption|exact Hp].
+  Qed.
+
+  (* EVERY iteration of Iterative::run is counted, whatever the heuristic handed over: the generation counter read by the
+     termination criteria (statistics.generation) advances, and an empty hand-over leaves the population as it was *)
+  Lemma generation_counted st : Forall (Good jobs) (s_pop st) ->
+    exists st', generation cfg W q st = Some st'
+                /\ gens_run (s_tele st') = S (gens_run (s_tele st))
+                /\ t_stat_gen (s_tele st') = gens_run (s_tele st)
+                /\ (exists offs, s_pop st' = s_pop st ++ o_hyper W (gens_run (s_tele st)) (s_pop st) offs)
+                /\ ((forall offs, o_hyper W (gens_run (s_tele st)) (s_pop st) offs = []) -> s_pop st' = s_pop st).
+  Proof.
+    intros Hpop. unfold generation.
+    destruct (offspring_some (gens_run (s_tele st)) (s_pop st) Hpop (o_parents W (gens_run (s_tele st)) (s_pop st)) 0 (s_polls st))
+      as (offs & polls & E & Hoffs & Hp).
+    rewrite E. eexists. split; [reflexivity|]. cbn [s_tele s_pop].
+    split; [apply on_generation_gens|]. split; [apply on_generation_stat|]. split; [exists offs; reflexivity|].
+    intros Hnone. rewrite Hnone. apply app_nil_r.
   Qed.
 
   Lemma initial_some : forall n idx st, Forall (Good jobs) (s_pop st) ->
@@ -379,21 +451,25 @@ Section Evolve.
           -- rewrite on_generation_evolution. lia.
   Qed.
 
-  (* nothing but the generation limit stops the loop: exactly l + 1 generations *)
+  (* nothing but the limit on statistics.generation stops the loop: exactly L + 1 generations, L = the configured maximum,
+     lowered by a user-supplied criterion on the statistics if there is one *)
   Lemma iloop_exact N :
-    c_max_gen cfg = Some N -> 1 <= N -> (forall n, q n = false) -> (forall t, o_time W t = false) ->
+    c_max_gen cfg = Some N -> 1 <= eff_limit cfg N -> (forall n, q n = false) -> (forall t, o_time W t = false) ->
     (forall i t, o_other W i t = false) ->
     forall fuel st,
-      Forall (Good jobs) (s_pop st) -> tele_wf (s_tele st) -> gens_run (s_tele st) <= S N -> S N - gens_run (s_tele st) <= fuel ->
-      exists st', iloop fuel cfg W q st = Some st' /\ gens_run (s_tele st') = S N /\ t_metric_gens (s_tele st') = N
+      Forall (Good jobs) (s_pop st) -> tele_wf (s_tele st) -> gens_run (s_tele st) <= S (eff_limit cfg N)
+      -> S (eff_limit cfg N) - gens_run (s_tele st) <= fuel ->
+      exists st', iloop fuel cfg W q st = Some st' /\ gens_run (s_tele st') = S (eff_limit cfg N)
+                  /\ t_metric_gens (s_tele st') = eff_limit cfg N
                   /\ (exists e, s_pop st' = s_pop st ++ e).
   Proof.
-    intros Hc HN Hq Htm Hot. induction fuel as [|f IH]; intros st Hpop Hwf Hg Hfuel; cbn [iloop];
-      pose proof (is_termination_exact N (c_max_time cfg) (c_min_cv cfg) (c_target cfg) (t_stat_gen (s_tele st)) (o_time W) (o_other W) (s_tpolls st) Htm Hot) as Hterm;
-      unfold cfg_terms; rewrite Hc;
-      destruct (is_termination (terminations (Some N) (c_max_time cfg) (c_min_cv cfg) (c_target cfg)) (t_stat_gen (s_tele st)) (o_time W) (o_other W) (s_tpolls st)) as [term tp];
+    intros Hc HN Hq Htm Hot. set (L := eff_limit cfg N) in *.
+    induction fuel as [|f IH]; intros st Hpop Hwf Hg Hfuel; cbn [iloop];
+      pose proof (is_termination_exact cfg N (t_stat_gen (s_tele st)) (o_time W) (o_other W) (s_tpolls st) Hc Htm Hot) as Hterm;
+      fold L in Hterm;
+      destruct (is_termination (cfg_terms cfg) (t_stat_gen (s_tele st)) (o_time W) (o_other W) (s_tpolls st)) as [term tp];
       cbn [fst] in Hterm; subst term; rewrite Hq, orb_false_r;
-      destruct (N <=? t_stat_gen (s_tele st)) eqn:E.
+      destruct (L <=? t_stat_gen (s_tele st)) eqn:E.
     - apply Nat.leb_le in E. eexists. split; [reflexivity|]. cbn [s_tele].
       destruct (tele_wf_gens _ Hwf) as [[H1 H2]|H1]; [lia|]. destruct Hwf as [Hm _].
       split; [lia|]. split; [lia|]. exists []. cbn [s_pop]. rewrite app_nil_r. reflexivity.
@@ -446,15 +522,17 @@ Section Evolve.
   Qed.
 
   Theorem evolve_generations_exact N :
-    c_max_gen cfg = Some N -> 1 <= N -> 1 <= c_init_ops cfg -> 1 <= c_init_size cfg -> first_check_passes cfg W ->
+    c_max_gen cfg = Some N -> 1 <= eff_limit cfg N -> 1 <= c_init_ops cfg -> 1 <= c_init_size cfg -> first_check_passes cfg W ->
     (forall n, q n = false) -> (forall t, o_time W t = false) -> (forall i t, o_other W i t = false) ->
-    exists best st, evolve cfg W q = EOk best st /\ gens_run (s_tele st) = S N /\ t_metric_gens (s_tele st) = N.
+    exists best st, evolve cfg W q = EOk best st /\ gens_run (s_tele st) = S (eff_limit cfg N)
+                    /\ t_metric_gens (s_tele st) = eff_limit cfg N.
   Proof.
     intros Hc HN Hops Hsize [Hf1 Hf2] Hq Htm Hot. unfold evolve.
     assert (E0 : (c_init_ops cfg =? 0) = false) by (apply Nat.eqb_neq; lia). rewrite E0.
     destruct (c_init_size cfg) as [|n] eqn:En; [lia|].
     destruct (initial_first n estate0 Hf1 Hf2 (Forall_nil _)) as (st1 & E1 & Hp1 & Ht1 & Hne1). rewrite E1.
     pose proof (gen_limit_cfg cfg N Hc) as Hl. unfold loop_fuel. rewrite Hl.
+    pose proof (eff_limit_le cfg N) as HLN.
     destruct (iloop_exact N Hc HN Hq Htm Hot (S N) st1 Hp1) as (st2 & E2 & Hg2 & Hm2 & e & He).
     { rewrite Ht1. apply tele0_wf. }
     { rewrite Ht1. cbn. lia. }
